@@ -23,6 +23,12 @@ def mk(name, maker, **kw):
     """mkzoo-compatible cached stream maker call for harness/<maker>.c."""
     if maker == 'mkzoo':
         return vlib.mkzoo(name, **kw)
+    if maker == 'synth':
+        import zoo                       # specification-level synthesiser (numpy: bin/check re-execs under python3-vt)
+        kw = dict(kw)
+        if 'fill' in kw:
+            kw['fill'] = tuple(kw['fill'])
+        return zoo.synth_link(name, kw.pop('serial'), kw.pop('bs0'), kw.pop('bs1'), kw.pop('npk'), **kw)
     exe = vlib.harness('plain', maker)
     path = os.path.join(vlib.zoo_dir(), name + '.ogg')
     meta_p = path + '.json'
@@ -48,6 +54,10 @@ FAMILIES = {
     'c44k': ('c11_mkstream', dict(rate=44100, ch=2, n=30000, q=0.1, sig='clicks', period=9000), dict(sig='clicks', period=6100)),  # 256/2048, S/L alternate
     'd8k_imp': ('mkzoo', dict(rate=8000, ch=2, n=3000, q=0.3, sig='impulse'), dict(sig='mix')),                  # digitally silent packets (all floors unused) between coded ones
     'e8k_alt': ('c11_mkstream', dict(rate=8000, ch=2, n=6000, q=0.3, sig='alt', period=1200), dict(sig='mix')),   # channels alternately silent inside the coupled pair
+    # written bit by bit by the specification-level synthesiser (streams the encoder never produces)
+    'f0r0': ('synth', dict(serial=1101, bs0=128, bs1=512, npk=30, ch=2, floortype=0, restype=0, ppp=3), dict(fill=[5, 1])),   # floor 0 + residue 0, coupled; one floor shared by both modes (lazy bark map)
+    'm3': ('synth', dict(serial=1103, bs0=64, bs1=256, npk=30, ch=1, modes3=True, ppp=4), dict(fill=[5, 1])),                  # three modes, mode number != block flag
+    'r2': ('synth', dict(serial=1104, bs0=64, bs1=128, npk=30, ch=2, restype=2, ppp=4), dict(fill=[5, 1])),                   # residue 2
     # thorough only
     'a8k_long': ('mkzoo', dict(rate=8000, ch=1, n=12000, q=0.3, sig='mix'), dict(sig='noise')),
     'b16k_clicks': ('c11_mkstream', dict(rate=16000, ch=2, n=20000, q=0.3, sig='clicks', period=4000), dict(sig='mix')),
@@ -60,6 +70,11 @@ def recipes(fams):
     out = []
     for f in fams:
         maker, kw, tw = FAMILIES[f]
+        if maker == 'synth':
+            out.append(dict(name=f'c11_{f}_every', family=f, style='every', maker=maker, kw=dict(kw, ppp=1)))
+            out.append(dict(name=f'c11_{f}_page', family=f, style='page', maker=maker, kw=dict(kw)))
+            out.append(dict(name=f'c11_{f}_twin', family=f, style='twin', maker=maker, kw=dict(kw, **tw)))
+            continue
         out.append(dict(name=f'c11_{f}_every', family=f, style='every', maker=maker, kw=dict(kw, serial=1, pages='flush', tag='c11')))
         out.append(dict(name=f'c11_{f}_page', family=f, style='page', maker=maker, kw=dict(kw, serial=1, pages=4, tag='c11')))
         k2 = dict(kw, serial=2, pages=3, tag='c11')
@@ -234,7 +249,7 @@ def run(tier):
     vlib.build('plain', 'asan')
     exe = vlib.harness('plain', 'c11_damage')
     exe_asan = vlib.harness('asan', 'c11_damage')
-    fams = ['a8k', 'b16k', 'c44k', 'd8k_imp', 'e8k_alt'] + (['a8k_long', 'b16k_clicks', 'c44k_long'] if tier == 'thorough' else [])
+    fams = ['a8k', 'b16k', 'c44k', 'd8k_imp', 'e8k_alt', 'f0r0', 'm3', 'r2'] + (['a8k_long', 'b16k_clicks', 'c44k_long'] if tier == 'thorough' else [])
     recs = recipes(fams)
     # half-rate pass: streams whose short block is > 64 samples and that really switch between short and long blocks
     hr_wanted = [('c44k', 'page')] + ([('c44k', 'every'), ('b16k_clicks', 'page'), ('b16k_clicks', 'every'), ('b16k', 'page'), ('c44k_long', 'page')] if tier == 'thorough' else [])
@@ -306,7 +321,7 @@ def run(tier):
     def fam_idx(f):
         return [i for i, r in enumerate(recs) if r['family'] == f and not r.get('hr')]
 
-    quick_fams = ['a8k', 'b16k', 'c44k', 'd8k_imp', 'e8k_alt']
+    quick_fams = ['a8k', 'b16k', 'c44k', 'd8k_imp', 'e8k_alt', 'f0r0', 'm3', 'r2']
     # --- page-level damage through vorbisfile (all streams incl. twins)
     pgc = []
     for si in range(len(recs)):
@@ -338,12 +353,12 @@ def run(tier):
     phase('single', singles)
     if tier == 'thorough':
         # pairs of disturbances: every k1<k2 x 7x7 simple operations
-        for f in ['a8k', 'd8k_imp', 'b16k', 'e8k_alt', 'c44k']:
+        for f in ['a8k', 'd8k_imp', 'b16k', 'e8k_alt', 'f0r0', 'm3', 'r2', 'c44k']:
             for st in (1, 0):
                 si = fam_idx(f)[st]
                 phase(f'pairs_simple_{f}_{recs[si]["style"]}', pair_cases_simple(si, infos[si]))
         # every bit flip / truncation of packet k2 after a structural disturbance 1..3 packets earlier
-        for f in ['a8k', 'd8k_imp', 'c44k', 'e8k_alt', 'b16k']:
+        for f in ['a8k', 'd8k_imp', 'f0r0', 'm3', 'r2', 'c44k', 'e8k_alt', 'b16k']:
             for st in (1, 0):
                 si = fam_idx(f)[st]
                 phase(f'pairs_flip_{f}_{recs[si]["style"]}', pair_cases_flip(si, infos[si]))
@@ -416,6 +431,10 @@ def run(tier):
     chk.guard(len([t for t in trans_hit]) >= 4, 'observable accepted flips at packets before and after short->long and long->short transitions')
     chk.guard(acc.kinds['restart_twin']['n'] > 0 and acc.kinds['restart_twin']['skipped'] == 0 and acc.kinds['restart_twin']['obs'] > 0, "restart after a prefix of a DIFFERENT stream's packets covered")
     chk.guard(acc.kinds['flip_asan']['n'] > 0, 'ASan pass over all bit flips of the smallest stream ran')
+    f0 = fam_idx('f0r0')[1]
+    chk.guard(all(any(acc.by[(f0, kind, k)]['n'] > 0 for k in range(infos[f0]['packets']) if infos[f0]['blocks'][k] == b) for b in 'SL' for kind in ('restart_own', 'restart_twin', 'dropgap', 'flip'))
+              and infos[f0]['blocks'][0] == 'S' and acc.by[(f0, 'restart_own', infos[f0]['blocks'].index('L'))]['obs'] > 0,
+              'floor-0 stream (one floor shared by both modes): restarts with an empty history at packets of the OTHER block size than the first audio packet (lazily built bark map) were executed')
     hrf = acc.kinds['hr_flip']
     chk.guard(infos[hq]['halfrate'] == 1 and infos[hq]['samples'] * 2 == infos[fam_idx('c44k')[1]]['samples'] and hrf['n'] > 0 and hrf['obs'] > 0 and hrf['bsz'] > 0
               and all(acc.kinds['hr_' + k]['n'] > 0 and acc.kinds['hr_' + k]['skipped'] == 0 for k in ('dropgap', 'drop', 'dup', 'dupr', 'zero', 'restart_own', 'restart_twin', 'trunc', 'repl')),
